@@ -310,7 +310,8 @@ func (engine *Engine) Shutdown(ctx context.Context) (err error) {
 	}
 	verifYield("shutdown.loaded")
 	if !atomic.CompareAndSwapUint32(&engine.status, statusRunning, statusShutdown) {
-		return
+		// another Shutdown call won the race since the check above
+		return errStatusNotRunning
 	}
 
 	opt := engine.GetOptions()
